@@ -380,6 +380,136 @@ def m_op_assign(interp, fn, args, st, site, frame):
     return [(UNIT, st2)]
 
 
+
+# ------------------------------------------------------------------------------------------------
+# iterators over fixed-size arrays and integer ranges: concrete counters, so that `for` loops over
+# `arr.iter_mut().enumerate().take(n).skip(m)` or `0..n` unroll instead of being havocked
+
+def _array_len(interp, r, st):
+    """length of the array a slice reference was unsized from, if known from the pointee's type"""
+    if not isinstance(r, Ref):
+        return None
+    base = st.heap.get(r.addr)
+    if base is None:
+        return None
+    try:
+        v = interp.get_at(base, r.path)
+    except Exception:
+        return None
+    ty = getattr(v, "ty", None)
+    rec = getattr(ty, "rec", None) if ty is not None else None
+    if isinstance(rec, dict) and rec.get("k") == "array" and rec.get("len") is not None:
+        return int(rec["len"])
+    if isinstance(v, Adt) and v.name == "array":
+        return len(v.fields)
+    return None
+
+
+def m_slice_iter(interp, fn, args, st, site, frame):
+    if not getattr(interp, "concrete_iters", False):
+        return None                 # opt-in (client.explore_fn(..., concrete_iters=True)): other rules model iterators themselves
+    n = _array_len(interp, args[0], st) if args else None
+    if n is None or n > 64:
+        return None
+    return [(Adt("it:slice", 0, (args[0], Const(0, "usize"), Const(n, "usize"))), st)]
+
+
+def m_iter_enumerate(interp, fn, args, st, site, frame):
+    if args and isinstance(args[0], Adt) and args[0].name.startswith("it:"):
+        return [(Adt("it:enum", 0, (args[0], Const(0, "usize"))), st)]
+    return None
+
+
+def m_iter_take(interp, fn, args, st, site, frame):
+    if len(args) == 2 and isinstance(args[0], Adt) and args[0].name.startswith("it:") and isinstance(args[1], Const):
+        return [(Adt("it:take", 0, (args[0], args[1])), st)]
+    return None
+
+
+def m_iter_skip(interp, fn, args, st, site, frame):
+    if len(args) == 2 and isinstance(args[0], Adt) and args[0].name.startswith("it:") and isinstance(args[1], Const):
+        return [(Adt("it:skip", 0, (args[0], args[1])), st)]
+    return None
+
+
+def _it_next(it):
+    """(item or None, new iterator) for a concrete iterator value; raises ValueError when not concrete"""
+    nm = it.name
+    f = it.fields
+    if nm == "it:slice":
+        r, i, n = f
+        if not (isinstance(i, Const) and isinstance(n, Const)):
+            raise ValueError
+        if i.v >= n.v:
+            return None, it
+        return Ref(r.addr, r.path + ("[%d]" % i.v,), r.mut), Adt(nm, 0, (r, Const(i.v + 1, "usize"), n))
+    if nm == "it:range":
+        a, b = f
+        if not (isinstance(a, Const) and isinstance(b, Const)):
+            raise ValueError
+        if a.v >= b.v:
+            return None, it
+        return a, Adt(nm, 0, (Const(a.v + 1, a.ty), b))
+    if nm == "it:enum":
+        inner, c = f
+        item, inner2 = _it_next(inner)
+        if item is None:
+            return None, Adt(nm, 0, (inner2, c))
+        return Adt("tuple", 0, (c, item)), Adt(nm, 0, (inner2, Const(c.v + 1, "usize")))
+    if nm == "it:take":
+        inner, n = f
+        if n.v <= 0:
+            return None, it
+        item, inner2 = _it_next(inner)
+        return item, Adt(nm, 0, (inner2, Const(n.v - 1, "usize")))
+    if nm == "it:skip":
+        inner, n = f
+        k = n.v
+        while k > 0:
+            item, inner = _it_next(inner)
+            k -= 1
+            if item is None:
+                return None, Adt(nm, 0, (inner, Const(0, "usize")))
+        item, inner2 = _it_next(inner)
+        return item, Adt(nm, 0, (inner2, Const(0, "usize")))
+    raise ValueError
+
+
+def m_iter_next(interp, fn, args, st, site, frame):
+    a = args[0] if args else None
+    if not isinstance(a, Ref):
+        return None
+    base = st.heap.get(a.addr)
+    if base is None:
+        return None
+    try:
+        it = interp.get_at(base, a.path)
+    except Exception:
+        return None
+    if isinstance(it, Adt) and re.search(r"(^|::)ops::(range::)?Range$", it.name) and len(it.fields) == 2 \
+            and getattr(interp, "concrete_iters", False):
+        a_, b_ = it.fields
+        if not (isinstance(a_, Const) and isinstance(b_, Const) and isinstance(a_.v, int) and isinstance(b_.v, int) and b_.v - a_.v <= 64):
+            return None
+        st2 = st.fork()
+        if a_.v >= b_.v:
+            return [(NONE, st2)]
+        st2.heap[a.addr] = interp.set_at(base, a.path, Adt(it.name, it.variant, (Const(a_.v + 1, a_.ty), b_), it.vname))
+        return [(some(a_), st2)]
+    if not (isinstance(it, Adt) and it.name.startswith("it:")):
+        return None
+    try:
+        item, it2 = _it_next(it)
+    except ValueError:
+        return None
+    st2 = st.fork()
+    st2.heap[a.addr] = interp.set_at(base, a.path, it2)
+    return [(NONE if item is None else some(item), st2)]
+
+
+def m_range_into_iter(interp, fn, args, st, site, frame):
+    return None
+
 def m_identity(interp, fn, args, st, site, frame):
     return [(args[0], st)]
 
@@ -479,6 +609,11 @@ BASE_MODELS = [
     (r"^std::option::Option::<.*>::(unwrap|expect)$|^std::result::Result::<.*>::(unwrap|expect)$", m_unwrap),
     (r"^<(u8|u16|u32|u64|usize) as std::convert::TryInto<(u8|u16|u32|u64|usize)>>::try_into$|TryFrom<(u8|u16|u32|u64|usize)> for (u8|u16|u32|u64|usize)>::try_from$", m_int_try_from),
     (r"^<I as std::iter::IntoIterator>::into_iter$", m_identity),
+    (r"^core::slice::<impl \[.*\]>::(iter|iter_mut)$", m_slice_iter),
+    (r"^std::iter::Iterator::enumerate$|as std::iter::Iterator>::enumerate$", m_iter_enumerate),
+    (r"^std::iter::Iterator::take$|as std::iter::Iterator>::take$", m_iter_take),
+    (r"^std::iter::Iterator::skip$|as std::iter::Iterator>::skip$", m_iter_skip),
+    (r"as std::iter::Iterator>::next$|^std::iter::Iterator::next$", m_iter_next),
     (r"^<std::string::String as std::ops::Deref>::deref$|^<std::vec::Vec<.*> as std::ops::Deref>::deref$", m_identity),
     (r"as std::cmp::PartialOrd<log::LevelFilter>>::le$", m_log_disabled),
     (r"^log::max_level$", m_log_max_level),
